@@ -32,6 +32,7 @@ RULE = (
     "characters, a backslash next to a quote, or brackets; or a name containing header-like text; distinct by canonical case."
 )
 ASSUMPTIONS = [
+    "versions parsed from a raw connection log are judged only when the transferred block does not itself spell the format's header lines ('... version N', 'Got software version', 'PackType', ...)",
     "the log file format is the one GeckoCmd installs for its file logger: '%(asctime)s %(name)s %(levelname)s %(message)s'",
     "the snapshot name itself is not required to survive (the property lists bytes, pack type, firmware and cfg/log versions)",
     "a traffic log starts at the library's 'Starting spa connection handshake...' line; for partial transfers the harness logs that line itself",
@@ -342,6 +343,19 @@ def _part_b(res, case):
     if len(conns) != 1:
         res.fail("C19|traffic|count", f"{len(conns)} connections (of {len(snaps)} snapshots) parsed from one connection log")
         return block, nseg
+    keywords = (b"version", b"Got s", b"PackType", b"PackConf", b"SpaPackStruct")
+    if full and not any(k in block for k in keywords):
+        # the raw connection log also records what the handshake learnt: firmware tuples and cfg / log versions (judged when the
+        # block itself does not spell the header lines of the format: in a free-text log its raw bytes would read as such a line)
+        for what, fn, exp_ in (("intouch_EN", lambda: conns[0].intouch_EN, tuple(en)), ("intouch_CO", lambda: conns[0].intouch_CO, tuple(co)),
+                               ("config_version", lambda: int(conns[0].config_version), int(sim.snapshot.config_version)),
+                               ("log_version", lambda: int(conns[0].log_version), int(sim.snapshot.log_version))):
+            try:
+                got_ = fn()
+            except Exception as exc:  # noqa
+                got_ = f"<{type(exc).__name__}: {exc}>"
+            if got_ != exp_:
+                res.fail(f"C19|traffic|{what}", f"connection log of a handshake with a spa reporting {what} = {exp_!r} parses to {got_!r}")
     # the simulator serves whole 39-byte segments: the transferred bytes are the segments' payloads
     nfull = -(-length // 39)
     exp = b"".join(block[start + i * 39: start + i * 39 + min(39, 1024 - (start + i * 39))] for i in range(nfull))
